@@ -15,18 +15,24 @@ Inductive callexp := CallOk (st : list obs) | CallErr (e : exn) (st : list obs).
 Inductive asmexp := AsmOk (ids : list nat) (selflock : bool) | AsmErr (e : exn).
 Record rcase := { rc_elems : list (@edecl FX); rc_calls : list (@relcall FX * callexp); rc_motor : nat; rc_asm : asmexp }.
 
+(** bit for bit ([tol = false]) or within 1e-9 relative ([tol = true]: only to classify a disagreement as rounding-level) *)
+Definition r_close (x y : float) : bool :=
+  fbits_eq x y || PrimFloat.leb (PrimFloat.abs (PrimFloat.sub x y))
+                                (PrimFloat.add (PrimFloat.mul 0x1.12e0be826d695p-30 (PrimFloat.add (PrimFloat.abs x) (PrimFloat.abs y))) 0x1p-1000).
+Definition r_eq (tol : bool) (x y : float) : bool := if tol then r_close x y else fbits_eq x y.
 Definition onat_eqb (a b : option nat) : bool := match a, b with None, None => true | Some x, Some y => Nat.eqb x y | _, _ => false end.
-Definition obs_eqb (x : @edecl FX * @elink FX) (o : obs) : bool :=
+Definition obs_eqb (tol : bool) (x : @edecl FX * @elink FX) (o : obs) : bool :=
   let l := snd x in
   onat_eqb (l_drives l) (o_drives o) && onat_eqb (l_driven_by l) (o_driven_by o)
   && Nat.eqb (match l_role l with None => 0 | Some RMaster => 1 | Some RSlave => 2 end) (o_role o)
-  && match l_ratio l, o_ratio o with None, None => true | Some a, Some b => fbits_eq a b | _, _ => false end
-  && fbits_eq (l_eff l) (o_eff o)
+  && match l_ratio l, o_ratio o with None, None => true | Some a, Some b => r_eq tol a b | _, _ => false end
+  && r_eq tol (l_eff l) (o_eff o)
   && Nat.eqb (match l_selflock l with None => 0 | Some false => 1 | Some true => 2 end) (o_lock o).
-Fixpoint state_eqb (s : @rstate FX) (os : list obs) : bool :=
-  match s, os with [], [] => true | x :: s', o :: os' => obs_eqb x o && state_eqb s' os' | _, _ => false end.
+Fixpoint state_eqb (tol : bool) (s : @rstate FX) (os : list obs) : bool :=
+  match s, os with [], [] => true | x :: s', o :: os' => obs_eqb tol x o && state_eqb tol s' os' | _, _ => false end.
 
-(** code: 0 ok; 100+k: call k differs in outcome class; 200+k: call k leaves a different state; 50: assembly differs *)
+(** code: 0 ok; 100+k: call k differs in outcome class; 200+k: call k leaves a different state (400+k: different only in the last bits
+    of a ratio or an efficiency, and the comparison goes on); 50: assembly differs *)
 Fixpoint calls_code (s : @rstate FX) (cs : list (@relcall FX * callexp)) (k : N) : N * @rstate FX :=
   match cs with
   | [] => (0%N, s)
@@ -39,17 +45,20 @@ Fixpoint calls_code (s : @rstate FX) (cs : list (@relcall FX * callexp)) (k : N)
                  | _, _ => false end in
       let st := match e with CallOk st => st | CallErr _ st => st end in
       if negb okc then ((100 + k)%N, s') else
-      if negb (state_eqb s' st) then ((200 + k)%N, s') else calls_code s' cs' (N.succ k)
+      if negb (state_eqb true s' st) then ((200 + k)%N, s') else
+      let rest := calls_code s' cs' (N.succ k) in
+      if negb (state_eqb false s' st) && N.eqb (fst rest) 0 then ((400 + k)%N, snd rest) else rest
   end.
 Fixpoint nats_eqb (a b : list nat) : bool :=
   match a, b with [], [] => true | x :: a', y :: b' => Nat.eqb x y && nats_eqb a' b' | _, _ => false end.
 Definition rcase_code (c : rcase) : N :=
   let s0 := map (fun d => (d, fresh_link (d_kind d))) (rc_elems c) in
   let (code, s) := calls_code s0 (rc_calls c) 0 in
-  if negb (N.eqb code 0) then code else
+  if negb (N.eqb code 0) && N.ltb code 400 then code else
+  let code400 := code in
   match assemble s (rc_motor c), rc_asm c with
-  | Ok (ids, lk), AsmOk ids' lk' => if nats_eqb ids ids' && Bool.eqb lk lk' then 0%N else 50%N
-  | Err e, AsmErr e' => if exn_eqb e e' then 0%N else 51%N
+  | Ok (ids, lk), AsmOk ids' lk' => if nats_eqb ids ids' && Bool.eqb lk lk' then code400 else 50%N
+  | Err e, AsmErr e' => if exn_eqb e e' then code400 else 51%N
   | _, _ => 52%N
   end.
 Fixpoint rfailing_from (i : N) (l : list rcase) : list (N * (N * N)) :=
